@@ -92,10 +92,15 @@ def st_case(draw, max_ops=14):
     for _ in range(draw(st.integers(3, max_ops))):
         t = draw(st.sampled_from(["fit", "fit", "fit", "fit", "edit", "edit", "edit", "pre", "pre_bad", "refit",
                                   "refit", "rate", "emod", "getparams_edit", "repeat", "fitpre", "params_attr",
-                                  "plateau_range", "plateau_range"]))
+                                  "plateau_range", "plateau_range", "range_nudge"]))
         if t == "params_attr":
-            ops.append({"op": "params_attr", "attr": draw(st.sampled_from(["vary", "min", "max", "value", "expr"])),
+            ops.append({"op": "params_attr", "attr": draw(st.sampled_from(["vary", "min", "max", "value", "expr", "fix_then_expr"])),
                         "name": draw(st.sampled_from(["E", "contact_point", "baseline"])),
+                        "via": draw(st.sampled_from(["fit", "edit"]))})
+            continue
+        if t == "range_nudge":
+            # a second request whose interval differs by a few nm only
+            ops.append({"op": "range_nudge", "shift": draw(st.floats(0.5e-9, 9e-9)) * draw(st.sampled_from([1, -1])),
                         "via": draw(st.sampled_from(["fit", "edit"]))})
             continue
         if t == "plateau_range":
@@ -203,12 +208,29 @@ def do_op(idnt, op, curve):
                 par.set(max=par.value + abs(par.value) * 3 + 1e-7)
             elif op["attr"] == "value":
                 par.set(value=par.value * 1.2 + 1e-9)
+            elif op["attr"] == "fix_then_expr":
+                # first request: parameter fixed; second request differs in the expression only (same value)
+                name = op["name"] if op["name"] in p and op["name"] != "E" else "baseline"
+                v = float(p[name].value)
+                p[name].set(vary=False)
+                idnt.fit_model(params_initial=p)
+                p = idnt.get_initial_fit_parameters()
+                p[name].set(expr="%r + 0*E" % v)
             else:
                 p["baseline"].set(expr="0*E")
             if op["via"] == "fit":
                 idnt.fit_model(params_initial=p)
             else:
                 idnt.fit_properties["params_initial"] = p
+        elif kind == "range_nudge":
+            r = list(idnt.fit_properties.get("range_x", [0, 0]))
+            if r[0] == r[1] or not np.all(np.isfinite(r)):
+                r = [-0.7 * curve["depth"], 0.6 * curve["z0"]]
+            r = [float(r[0]) + op["shift"], float(r[1]) + op["shift"]]
+            if op["via"] == "fit":
+                idnt.fit_model(range_x=r)
+            else:
+                idnt.fit_properties["range_x"] = r
         elif kind == "getparams_edit":
             p = idnt.get_initial_fit_parameters()
             p["E"].value = p["E"].value * op["factor"] if "E" in p else 1.0
@@ -312,7 +334,7 @@ def check_case(case, ctx, ):
             before_calls = len(rec.calls)
             exc = do_op(idnt, op, curve)
             last = op
-            if exc is not None or op["op"] in ("edit", "getparams_edit", "params_attr"):
+            if exc is not None or op["op"] in ("edit", "getparams_edit", "params_attr", "range_nudge"):
                 special = True
             # class histogram of the orders the property names
             fpn = idnt.fit_properties
